@@ -77,7 +77,7 @@ def upd (S : Schema) (n : DNode) (e' : Option DNode) (E : DNode → Option DNode
 
 /-- a node that meets nothing in the target level is added -/
 theorem tinv_add {S : Schema} (K : KeyOrderOn S P) {cur : Option Op} {T L Y Y' : List DNode} {E : DNode → Option DNode}
-    (hT : TInv S P fx cur T L E) (hR : Rel S P T L E Y) (hkY : keysOf S Y = keysOf S L)
+    (hT : TInv S P fx cur T L E) (hR : Rel S P T L E Y) (hkY : ∀ c, KeysBelow S c Y → KeysBelow S c L)
     {c : DNode} {e' : Option DNode} (hcd : Dom S P c) (hck : S.isKey c.sid = false) (hkb : KeysBelow S c Y)
     (hun : ∀ t ∈ T, matchP S c t = false) (hact : Acts S P fx cur c ((look S Y c).map normN) e')
     (hloc : Local S P c Y Y') (hval : (look S Y' c).map normN = e') :
@@ -89,9 +89,7 @@ theorem tinv_add {S : Schema} (K : KeyOrderOn S P) {cur : Option Op} {T L Y Y' :
   refine ⟨⟨hT.lvl.cons hcd hck hun hun', ?_, ?_⟩, ⟨?_, ?_⟩⟩
   · intro x hx
     rcases List.mem_cons.mp hx with rfl | hx
-    · intro k hk
-      rw [← hkY] at hk
-      exact hkb k hk
+    · exact hkY x hkb
     · exact hT.kb x hx
   · intro x hx
     rcases List.mem_cons.mp hx with rfl | hx
@@ -796,11 +794,13 @@ theorem kids_inv {S : Schema} (K : KeyOrderOn S P) {inh : Option Op} {Lk kt : Li
     (hex : exactK S P inh Lk true kt = true) :
     ∃ (Ek : DNode → Option DNode) (V : List DNode), TInv S P fx inh (noKeys S kt) Lk Ek ∧
       ActsL S P fx inh (noKeys S kt) (normL13 Lk) V ∧
-      ∀ Yk, goodT S P Yk = true → normL13 Yk = V → Rel S P (noKeys S kt) Lk Ek Yk := by
+      ∀ Yk, goodT S P Yk = true → normL13 Yk = V →
+        Rel S P (noKeys S kt) Lk Ek Yk ∧ (∀ c, KeysBelow S c Yk → KeysBelow S c Lk) ∧
+          normL13 (keysOf S Yk) = normL13 (keysOf S Lk) := by
   have hdk : dk S true kt = noKeys S kt := by simp [dk]
   obtain ⟨Ek, hEk⟩ := exactK_acts (fx := fx) (nodesFwd K kt) hgL hex
   have hlvl := exactK_level K true kt hex
-  obtain ⟨X1, _, hgX1, _, hloc1, hval1⟩ := exactK_apply (fx := fx) (hp := true) K hgL hex hEk (Nat.le_refl _) hgL rfl
+  obtain ⟨X1, _, hgX1, hkX1, hloc1, hval1⟩ := exactK_apply (fx := fx) (hp := true) K hgL hex hEk (Nat.le_refl _) hgL rfl
   rw [hdk] at hEk hlvl hloc1 hval1
   refine ⟨Ek, normL13 X1, ⟨hlvl, fun c hc => (exactK_mem true kt hex c (by rw [hdk]; exact hc)).2, hEk⟩, ?_, ?_⟩
   · intro n hp X hh hgX hX
@@ -810,9 +810,15 @@ theorem kids_inv {S : Schema} (K : KeyOrderOn S P) {inh : Option Op} {Lk kt : Li
     exact ⟨X2, hX2, hgX2, hkX2, normL_eq_of_level K hlvl.dom hgX2 hgX1 hloc2 hloc1 hX
       (fun c hc => by rw [hval2 c hc, hval1 c hc])⟩
   · intro Yk _ hYk
-    refine ⟨fun t ht => ?_, fun q hq hall => ?_⟩
+    refine ⟨⟨fun t ht => ?_, fun q hq hall => ?_⟩, ?_, ?_⟩
     · rw [look_norm_congr hYk t]; exact hval1 t ht
     · rw [look_norm_congr hYk q, hloc1 q hq hall]
+    · intro c hc
+      have := keysBelow_congr (X := X1) (L := Yk) hYk.symm hc
+      intro k hk
+      rw [← hkX1] at hk
+      exact this k hk
+    · rw [← keysOf_normL, hYk, keysOf_normL, hkX1]
 
 /-- a target level that acts on `L`: what it makes of `L` (up to `normN`) is one list `V`, the observation of every related list -/
 theorem TInv.actsL {S : Schema} (K : KeyOrderOn S P) {cur : Option Op} {T L : List DNode} {E : DNode → Option DNode}
